@@ -524,3 +524,40 @@ def attribute_history(build, opsrc, env):
             return c
     o, _q, _r = after({"all"})
     return "several" if same_outcome(alone, o) else "unexplained"
+
+
+def attribute_battery(build, opsrcs, i, order, env):
+    """like `attribute`, for a difference of operation `i` that only shows after the other operations
+    of the battery ran (caches seeded by earlier operations): the whole battery is re-run, in the same
+    order, with one component of the restored object repaired at a time"""
+
+    def run(fix):
+        q, r = build()
+        if fix is not None:
+            r = repair(r, q, fix)
+        clear_caches()
+
+        def bat(x):
+            e = dict(env)
+            e["x"] = x
+            e["R"] = x.units.registry
+            return [outcome(lambda s=s: eval(s, e)) for s in opsrcs]  # noqa: S307
+
+        if order == "orig-first":
+            a = bat(q)
+            b = bat(r)
+        else:
+            b = bat(r)
+            a = bat(q)
+        return a[i], b[i], q, r
+
+    a, b, q, r = run(None)
+    if same_outcome(a, b):
+        return None
+    diffs = state_diff(q, r)
+    for c in ["cache-seeded"] + [d for d in REPAIRS if d in diffs]:
+        a, b, _q, _r = run({c})
+        if same_outcome(a, b):
+            return c
+    a, b, _q, _r = run({"all"})
+    return "several" if same_outcome(a, b) else "unexplained"
